@@ -118,7 +118,13 @@ def specStep (s : SpecSt) (l : String) : SpecSt × String :=
         -- no request with this id went to that hop.  If a request with this id is live on another
         -- hop the response is unsolicited (forged or misrouted upstream) and is not judged here; if no
         -- request with this id is live at all, the agent must not act on it.
-        if s.live.any (fun r => r.id == i) then (s, "ok")
+        if s.live.any (fun r => r.id == i) then
+          -- if the agent acted on it, the request it matched by bare id is consumed
+          let s' := if items.isEmpty then s else
+            match s.live.find? (fun r => r.id == i) with
+            | some r => { s with live := s.live.erase r }
+            | none => s
+          (s', "ok")
         else (s, if items.isEmpty then "ok" else "fail " ++ ftag s "phantom")
       | some r =>
         let s' := { s with live := s.live.erase r }
